@@ -532,6 +532,57 @@ func RunC19(c *lib.Ctx) {
 			c.Case(fmt.Sprintf("%s/back-to-back/size%d/order%d", kind, size, rep%2), true)
 		}
 	}
+	// ---------- an honest batch, later the same signed snapshots with one digest altered ----------
+	// agents do not check signatures: "already processed" must mean the same content, not the same signatures
+	for _, kind := range []string{"auditor", "monitor"} {
+		for rep := 0; rep < c.Q(2, 8); rep++ {
+			id := fmt.Sprintf("%s-altered-redelivery-%d", kind, rep)
+			if c.Only != "" && c.Only != id {
+				continue
+			}
+			a, an, err := mkAgent(kind + "-ar")
+			if err != nil {
+				continue
+			}
+			tm := gossip.NewSimpleTasksManager(100*time.Millisecond, 10)
+			a.Tasks = tm
+			tm.Start()
+			f := memF
+			if kind == "monitor" {
+				f = incF
+			}
+			bp := gossip.NewBatchProcessor(a, []gossip.TaskFactory{f}, nil)
+			a.In.Subscribe(gossip.BatchMessageType, bp, 255)
+			size := rb.Pick(2, 3, 4)
+			f1 := rb.Intn(total - size)
+			honest, altered := batchAt(f1, size), batchAt(f1, size)
+			k := 0 // the auditor verifies the first snapshot of a batch, the monitor the first against the last
+			if kind == "monitor" && rep%2 == 0 {
+				k = size - 1
+			}
+			altered.Snapshots[k].Snapshot.HistoryDigest = flipD(altered.Snapshots[k].Snapshot.HistoryDigest)
+			before := alerts.drain()
+			payload, _ := honest.Encode()
+			a.In.Publish(&gossip.Message{Kind: gossip.BatchMessageType, TTL: 0, Payload: payload})
+			time.Sleep(500 * time.Millisecond)
+			mid := alerts.drain() - before
+			payload, _ = altered.Encode()
+			a.In.Publish(&gossip.Message{Kind: gossip.BatchMessageType, TTL: 0, Payload: payload})
+			time.Sleep(600 * time.Millisecond)
+			got := alerts.drain() - before - mid
+			tm.Stop()
+			bp.Stop()
+			an.Stop()
+			c.Count("altered_redeliveries_through_processor", 1)
+			cs := c19case{ID: id, Agent: kind, First: uint64(f1), Size: size, Alteration: fmt.Sprintf("the honest batch first, then the same signed snapshots with the history digest of snapshot #%d altered", k), Binding: true, Alerts: got}
+			if mid > 0 {
+				c.Violation(fmt.Sprintf("C19:%s:honest:false-alert", kind), fmt.Sprintf("%s raised %d alert(s) for an untouched batch of an honest log (versions %d..%d) delivered through the processor", kind, mid, f1, f1+size-1), cs)
+			} else if got == 0 {
+				c.Violation(fmt.Sprintf("C19:%s:altered-redelivery:no-alert", kind), fmt.Sprintf("%s: batch %d..%d was processed, then arrived again with the same signatures and an altered history digest: no alert was raised", kind, f1, f1+size-1), cs)
+			}
+			c.Case(fmt.Sprintf("%s/altered-redelivery/size%d/k%d", kind, size, k), true)
+		}
+	}
 	// ---------- a burst of failing verifications against a slow alert service ----------
 	if c.Only == "" || c.Only == "alert-burst" {
 		a, an0, err := mkAgent("auditor-burst")
